@@ -131,6 +131,22 @@ var (
 	pubRing  openpgp.EntityList
 )
 
+// freshPriv parses the private keyring anew: the prompt callback decrypts keys in place, so ops running
+// in parallel must not share key objects
+func freshPriv() openpgp.EntityList {
+	loadSeeds()
+	var out openpgp.EntityList
+	for _, n := range []string{"read.testKeys1And2PrivateHex", "read.dsaElGamalTestKeysHex", "read.p256TestKeyPrivateHex", "read.dsaTestKeyPrivateHex"} {
+		if el, err := openpgp.ReadKeyRing(bytes.NewReader(seedBy[n].data)); err == nil {
+			out = append(out, el...)
+		}
+	}
+	if el, err := openpgp.ReadArmoredKeyRing(bytes.NewReader(seedBy["read.armoredPrivateKeyBlock"].data)); err == nil {
+		out = append(out, el...)
+	}
+	return out
+}
+
 func rings() {
 	krOnce.Do(func() {
 		loadSeeds()
@@ -343,7 +359,7 @@ func run(line string) string {
 		return "no-panic"
 	case "msg":
 		rings()
-		var kr openpgp.KeyRing = privRing
+		var kr openpgp.KeyRing = freshPriv()
 		switch o.Str("kr") {
 		case "pub":
 			kr = pubRing
@@ -362,9 +378,7 @@ func run(line string) string {
 			}
 			calls++
 			for _, k := range keys {
-				// (an ECDH secret key makes PrivateKey.Decrypt panic — known finding ecdh-secret-key; the crafted
-				//  `note=ecdh-secret` cases exercise it through ReadKeyRing, so the prompt leaves those keys alone)
-				if k.PrivateKey != nil && k.PrivateKey.Encrypted && k.PublicKey.PubKeyAlgo != packet.PubKeyAlgoECDH {
+				if k.PrivateKey != nil && k.PrivateKey.Encrypted {
 					k.PrivateKey.Decrypt(pw)
 				}
 			}
@@ -946,6 +960,195 @@ func mutate(r *hx.Rand, g *hx.Gen, d []byte) []byte {
 	return d
 }
 
+// ---- signature-aware mutation of key blocks: subpacket deletion / move / duplication with all lengths
+// fixed up (the packet still parses), signature type changes, targeted packet drop / dup / reorder
+
+type subpkt struct {
+	raw []byte
+	typ byte
+}
+
+func parseSubs(a []byte) ([]subpkt, bool) {
+	var out []subpkt
+	for len(a) > 0 {
+		var n, h int
+		switch {
+		case a[0] < 192:
+			n, h = int(a[0]), 1
+		case a[0] < 255:
+			if len(a) < 2 {
+				return nil, false
+			}
+			n, h = (int(a[0])-192)<<8+int(a[1])+192, 2
+		default:
+			if len(a) < 5 {
+				return nil, false
+			}
+			n, h = int(binary.BigEndian.Uint32(a[1:])), 5
+		}
+		if n == 0 || h+n > len(a) {
+			return nil, false
+		}
+		out = append(out, subpkt{raw: a[:h+n], typ: a[h] & 0x7f})
+		a = a[h+n:]
+	}
+	return out, true
+}
+
+func joinSubs(l []subpkt) []byte {
+	var b []byte
+	for _, s := range l {
+		b = append(b, s.raw...)
+	}
+	return b
+}
+
+var sigTypes = []byte{0x10, 0x11, 0x12, 0x13, 0x18, 0x19, 0x1f, 0x20, 0x28, 0x30, 0x00, 0x01}
+
+func mutateSigs(r *hx.Rand, g *hx.Gen, d []byte) []byte {
+	d = append([]byte(nil), d...)
+	for k, n := 0, r.PickInt(1, 1, 2, 3); k < n; k++ {
+		ps := walk(d)
+		if len(ps) == 0 {
+			return d
+		}
+		op := r.Intn(10)
+		if op >= 7 { // whole-packet edits aimed at the key-block structure
+			var idx []int
+			want := r.PickInt(13, 2, 2, 14, 7, 17)
+			for i, p := range ps {
+				if p.tag == want {
+					idx = append(idx, i)
+				}
+			}
+			if len(idx) == 0 {
+				continue
+			}
+			p := ps[hx.Pick(r, idx)]
+			pkt := append([]byte(nil), d[p.start:p.end]...)
+			switch op {
+			case 7:
+				g.Stat("sigmut.drop-packet")
+				d = append(d[:p.start:p.start], d[p.end:]...)
+			case 8:
+				g.Stat("sigmut.dup-packet")
+				d = append(d[:p.end:p.end], append(pkt, d[p.end:]...)...)
+			default:
+				g.Stat("sigmut.move-packet")
+				rest := append(d[:p.start:p.start], d[p.end:]...)
+				qs := walk(rest)
+				at := len(rest)
+				if len(qs) > 0 {
+					at = hx.Pick(r, qs).start
+				}
+				d = append(rest[:at:at], append(pkt, rest[at:]...)...)
+			}
+			continue
+		}
+		var sigs []pkt
+		for _, p := range ps {
+			if p.tag == 2 && p.bodyStart >= 0 && p.end-p.bodyStart > 10 && d[p.bodyStart] == 4 && !(d[p.start]&0x40 != 0 && d[p.start+1] >= 224 && d[p.start+1] < 255) {
+				sigs = append(sigs, p)
+			}
+		}
+		if len(sigs) == 0 {
+			continue
+		}
+		p := hx.Pick(r, sigs)
+		b := d[p.bodyStart:p.end]
+		hl := int(b[4])<<8 | int(b[5])
+		if 6+hl+2 > len(b) {
+			continue
+		}
+		ul := int(b[6+hl])<<8 | int(b[7+hl])
+		if 8+hl+ul > len(b) {
+			continue
+		}
+		hashed, ok1 := parseSubs(b[6 : 6+hl])
+		unhashed, ok2 := parseSubs(b[8+hl : 8+hl+ul])
+		if !ok1 || !ok2 {
+			continue
+		}
+		head := append([]byte(nil), b[:4]...)
+		tail := append([]byte(nil), b[8+hl+ul:]...)
+		pickType := func(l []subpkt) int {
+			want := byte(r.PickInt(16, 16, 2, 27, 9, 11, 21, 25, 32))
+			for i, s := range l {
+				if s.typ == want {
+					return i
+				}
+			}
+			if len(l) == 0 {
+				return -1
+			}
+			return r.Intn(len(l))
+		}
+		switch op {
+		case 0, 1: // delete a subpacket (issuer / creation time / key flags / … ) from either area
+			area := &hashed
+			if r.Bool() || len(hashed) == 0 {
+				area = &unhashed
+			}
+			if len(*area) == 0 {
+				area = &hashed
+			}
+			if i := pickType(*area); i >= 0 {
+				g.Stat(fmt.Sprintf("sigmut.del-sub-%d", (*area)[i].typ))
+				*area = append((*area)[:i:i], (*area)[i+1:]...)
+			}
+		case 2: // delete every issuer subpacket
+			g.Stat("sigmut.del-all-issuer")
+			f := func(l []subpkt) []subpkt {
+				var o []subpkt
+				for _, s := range l {
+					if s.typ != 16 {
+						o = append(o, s)
+					}
+				}
+				return o
+			}
+			hashed, unhashed = f(hashed), f(unhashed)
+		case 3: // move a subpacket to the other area
+			if r.Bool() && len(hashed) > 0 {
+				i := pickType(hashed)
+				g.Stat("sigmut.move-to-unhashed")
+				unhashed = append(unhashed, hashed[i])
+				hashed = append(hashed[:i:i], hashed[i+1:]...)
+			} else if len(unhashed) > 0 {
+				i := pickType(unhashed)
+				g.Stat("sigmut.move-to-hashed")
+				hashed = append(hashed, unhashed[i])
+				unhashed = append(unhashed[:i:i], unhashed[i+1:]...)
+			}
+		case 4: // duplicate a subpacket
+			if i := pickType(hashed); i >= 0 {
+				g.Stat("sigmut.dup-sub")
+				hashed = append(hashed, hashed[i])
+			}
+		case 5, 6: // another signature type
+			g.Stat("sigmut.sigtype")
+			head[1] = hx.Pick(r, sigTypes)
+		}
+		hb, ub := joinSubs(hashed), joinSubs(unhashed)
+		nb := append(head, byte(len(hb)>>8), byte(len(hb)))
+		nb = append(nb, hb...)
+		nb = append(nb, byte(len(ub)>>8), byte(len(ub)))
+		nb = append(nb, ub...)
+		nb = append(nb, tail...)
+		d = append(d[:p.start:p.start], append(opaque(2, nb), d[p.end:]...)...)
+	}
+	return d
+}
+
+func hasSig(d []byte) bool {
+	for _, p := range walk(d) {
+		if p.tag == 2 {
+			return true
+		}
+	}
+	return false
+}
+
 func mutateText(r *hx.Rand, t []byte) []byte {
 	t = append([]byte(nil), t...)
 	for k, n := 0, r.PickInt(1, 1, 2, 3); k < n && len(t) > 0; k++ {
@@ -1031,11 +1234,21 @@ func genUpper(g *hx.Gen) {
 		bin = dearmor(s.data)
 	}
 	unmutated := r.Chance(1, 12)
+	mut := mutate
+	if hasSig(bin) && r.Chance(1, 2) {
+		mut = func(r *hx.Rand, g *hx.Gen, d []byte) []byte {
+			d = mutateSigs(r, g, d)
+			if r.Chance(1, 4) {
+				d = mutate(r, g, d)
+			}
+			return d
+		}
+	}
 	switch k := r.Intn(10); {
 	case k < 3:
 		d := bin
 		if !unmutated {
-			d = mutate(r, g, bin)
+			d = mut(r, g, bin)
 		}
 		g.Stat("upper.kr")
 		g.Emit("kr data=%s", hx.Hex(d))
@@ -1049,7 +1262,7 @@ func genUpper(g *hx.Gen) {
 			if unmutated {
 				w.Write(bin)
 			} else {
-				w.Write(mutate(r, g, bin))
+				w.Write(mut(r, g, bin))
 			}
 			w.Close()
 			t = buf.Bytes()
@@ -1062,14 +1275,14 @@ func genUpper(g *hx.Gen) {
 	case k < 8:
 		d := bin
 		if !unmutated {
-			d = mutate(r, g, bin)
+			d = mut(r, g, bin)
 		}
 		g.Stat("upper.msg")
 		g.Emit("msg kr=%s prompt=%s pw=%s data=%s", r.PickStr("priv", "priv", "pub", "none"), r.PickStr("fn", "fn", "fn", "nil"), pwList(r), hx.Hex(d))
 	default:
 		d := bin
 		if !unmutated {
-			d = mutate(r, g, bin)
+			d = mut(r, g, bin)
 		}
 		if r.Chance(1, 4) && s.txt {
 			d = mutateText(r, s.data)
@@ -1109,7 +1322,8 @@ func genArmored(g *hx.Gen) {
 	g.Emit("arm data=%s", hx.Hex(t))
 }
 
-// crafted inputs for the three confirmed defects (known_findings.txt); each carries a note= marker
+// crafted inputs for the three defects this check found (now `fixed:` in known_findings.txt) — kept as
+// regression cases; each carries a note= marker
 func be64(v uint64) []byte { b := make([]byte, 8); binary.BigEndian.PutUint64(b, v); return b }
 
 func opaque(tag uint8, body []byte) []byte {
@@ -1175,7 +1389,7 @@ func genFinding(g *hx.Gen) {
 
 func gen(g *hx.Gen) {
 	loadSeeds()
-	n := g.Count(12000, 1500000)
+	n := g.Count(9000, 150000)
 	r := g.R
 	for i := 0; i < n; i++ {
 		if r.Chance(1, 400) {
